@@ -264,6 +264,9 @@ func (k *caseT) verify(i int, when string, kinds []string) {
 		}
 		if prob := k.lookup(kind, i); prob != "" {
 			key := k.cacheState()
+			if key == "shared" || key == "exclusive:lists-fresh" {
+				key += ":" + lookupClass(kind) // no listed cache defect is active: the lookup kind is the feature
+			}
 			k.c.Fail(key, fmt.Sprintf("object #%d (%s %s, stored via %s, %s) not visible %s: %s [%s; cache state %s]", i, k.u.Objs[i].Type, k.u.Objs[i].Hash, cm.via, cm.class, when, prob, k.o, k.cacheState()),
 				k.dump(map[string]any{"object": i, "lookup": kind, "problem": prob, "when": when}))
 		}
@@ -555,7 +558,7 @@ func run(c *vf.Ctx) {
 		k := &caseT{c: c, r: r, idx: i}
 		k.o = optsT{
 			Exclusive: r.Intn(2) == 0, MemIdx: r.Intn(2) == 0,
-			LargeThr:  []int64{0, 0, 1024}[r.Intn(3)],
+			LargeThr:  []int64{0, 64, 1024}[r.Intn(3)],
 			CacheSize: []int64{0, 0, 512}[r.Intn(3)],
 			FS:        []string{"memfs", "memfs", "osfs"}[r.Intn(3)],
 			Format:    []string{"sha1", "sha1", "sha1", "sha256"}[r.Intn(4)],
